@@ -65,8 +65,8 @@ class ConflictInit:
 def main(tier, seed, args):
     rep = Report(PID, tier, seed, 'model_checking')
     c = ctx('on')
-    n = 2 if tier == 'quick' else 3
-    rep.bounds = {'htlcs_per_hash': n, 'rejecting_htlcs': 'any subset (symbolic fields decide)', 'stored_state': ['free', 'pending', 'succeeded'],
+    n = 2
+    rep.bounds = {'htlcs_per_hash': '2 fully symbolic; thorough: also 3 with concrete policy and invoice amount', 'rejecting_htlcs': 'any subset (symbolic fields decide)', 'stored_state': ['free', 'pending', 'succeeded'],
                   'conflicts': ['different invoice string, same hash', 'same amountless invoice, different amount TLV'],
                   'outside': 'more HTLCs; more than one hash (C14)'}
     rep.assumptions = ['node + tokio contracts', 'a single HTLC amount <= money supply', 'select! start index is a free choice (tokio thread_rng_n)']
@@ -75,12 +75,32 @@ def main(tier, seed, args):
     configs = []
     cfg, pc = cfg_symbolic(n)
     configs.append(('symbolic[%d htlcs, free]' % n, cfg, pc, [SameResolution(), NoPayAfterRejection(('fee', 'expiry')), Coverage(['pay', 'response:Resolve', 'response:Fail(201a)', 'response:Fail(2019)'])], {}))
+    if tier == 'thorough':
+        # (3 fully symbolic HTLCs did not finish in 50 min: outside the bound) -- 3 HTLCs, amounts and expiries symbolic,
+        # policy and invoice amount concrete
+        cfg, pc = cfg_stored('free_absent')
+        H = sym.var('H')
+        specs = std_htlcs(pc, 3, H)
+        for sp in specs:
+            sp.total = 1006000
+            sp.forward = 'amount'
+        cfg['htlcs'] = specs
+        configs.append(('symbolic amounts and expiries[3 htlcs, free, concrete policy]', cfg, pc,
+                        [SameResolution(), NoPayAfterRejection(('fee', 'expiry')), Coverage(['pay', 'response:Resolve'])], {'max_states': 1500000}))
     for kind in ('invoice', 'tlv-amount'):
         cfg, pc = cfg_conflict(kind)
         configs.append(('conflict[%s]' % kind, cfg, pc, [ConflictInit(), SameResolution(), MismatchRejection(), Coverage(['response:Fail(2019)'])], {}))
     for store in (('pending',) if tier == 'quick' else ('pending', 'succeeded')):
         cfg, pc = cfg_stored(store)
         configs.append(('stored[2 htlcs, %s]' % store, cfg, pc, [SameResolution(), Coverage(['response:Resolve'])], {}))
+    # a rejection raised while the stored state of an interrupted attempt is still being settled (restart path: fetch,
+    # wait for the earlier parts, mark failed) must survive until the set completes: relative expiries symbolic
+    cfg, pc = cfg_stored('pending')
+    for s in cfg['htlcs']:
+        s.cltv_rel = sym.var('rel%d' % s.idx)
+        pc.append(sym.and_(sym.le(0, s.cltv_rel), sym.le(s.cltv_rel, 2000)))
+    configs.append(('stored[2 htlcs, pending, rejecting]', cfg, pc, [SameResolution(), NoPayAfterRejection(('expiry',)),
+                                                                      Coverage(['pay', 'response:Fail(201a)'])], {}))
     scen_common.run_configs(rep, PID, c, configs, budget)
     finish(rep, [c], './check C07 --tier ' + tier)
 
